@@ -9,6 +9,7 @@ import (
 	"reflect"
 	"strings"
 	"sync/atomic"
+	"time"
 
 	"cuelabs.dev/go/oci/ociregistry"
 
@@ -61,6 +62,16 @@ var (
 	c20SentinelWriter = &c20Writer{}
 	c20ArgReader      = strings.NewReader("c20 arg reader")
 	c20Ctx            = context.WithValue(context.Background(), c20Key{}, "c20ctx")
+	c20CtxCancelled   = func() context.Context {
+		ctx, cancel := context.WithCancel(c20Ctx)
+		cancel()
+		return ctx
+	}()
+	c20CtxExpired = func() context.Context {
+		ctx, cancel := context.WithDeadline(c20Ctx, time.Unix(1, 0))
+		_ = cancel
+		return ctx
+	}()
 )
 
 type c20Key struct{}
@@ -130,6 +141,12 @@ func c20ArgMenu(t reflect.Type, k int) []reflect.Value {
 	d := c20Arg(t, k)
 	z := reflect.New(t).Elem()
 	switch {
+	case t == reflect.TypeOf((*context.Context)(nil)).Elem():
+		// the table neither delegates differently nor fails differently for a context that is already done
+		c, x := reflect.New(t).Elem(), reflect.New(t).Elem()
+		c.Set(reflect.ValueOf(c20CtxCancelled))
+		x.Set(reflect.ValueOf(c20CtxExpired))
+		return []reflect.Value{d, c, x}
 	case t.Kind() == reflect.String, t == reflect.TypeOf(ociregistry.Descriptor{}):
 		return []reflect.Value{d, z}
 	case t.Kind() == reflect.Slice:
@@ -452,7 +469,7 @@ func c20Check(r *vcore.Run) vcore.Coverage {
 	r.Assume = []string{"function fields are discovered by reflection over ociregistry.Funcs; method = field name without the trailing underscore"}
 	return vcore.Coverage{
 		Evaluations: evals, Nontrivial: nontrivial,
-		Rule:       fmt.Sprintf("methods(%d) x set/unset assignments(%d of %d) x {no constructor, constructor} x argument vectors (cross product of per-parameter menus {distinctive, zero, -1} for none/all/single/pair assignments and their complements; distinctive + all-degenerate vectors for the rest) + nil receiver; non-trivial = assignment is neither all-set nor all-unset (distinct by construction)", n, len(masks), 1<<n),
+		Rule:       fmt.Sprintf("methods(%d) x set/unset assignments(%d of %d) x {no constructor, constructor} x argument vectors (cross product of per-parameter menus {distinctive, zero, -1; context live/cancelled/expired} for none/all/single/pair assignments and their complements; distinctive + all-degenerate vectors for the rest) + nil receiver; non-trivial = assignment is neither all-set nor all-unset (distinct by construction)", n, len(masks), 1<<n),
 		Exhaustive: r.Thorough(),
 		Extra:      map[string]any{"methods": n, "assignments": len(masks)},
 	}
